@@ -75,6 +75,10 @@ def native_fallback(prop, tier, seed, reason):
     from . import replay as RP
     if not os.path.exists(os.path.join(H, 'pvc', 'native', prop.lower() + '.py')): return None
     n = 60 if tier == 'quick' else 300
+    try:
+        fbn = getattr(importlib.import_module('pvc.props.' + prop.lower()), 'FALLBACK_N', None)
+        if fbn: n = fbn[0 if tier == 'quick' else 1]
+    except Exception: pass
     cases = native(dict(cmd='corpus', prop=prop, seed=seed, n=n))
     out = native(dict(cmd='check', prop=prop, cases=cases), timeout=3000)
     cov = dict(bounded_parts=[dict(function='native corpus of %s (fallback)' % prop, bound='%d seeded concrete inputs' % len(cases), reason='pvc could not analyse this tree: ' + reason[:200])],
